@@ -63,13 +63,15 @@ def check_program(prog: Dict[str, Any], acc: Acc, flags=None):
         if flat.composite_operations or any(snap.is_composite(o) for o in snap.walk_nodes(flat.circuit_structure)):
             acc.finding("flatten/sub-circuit-left", "a sub-circuit remains after flatten()", case, None)
         ids = [id(o) for o in ops]
-        times = snap.raw_times(ops)
+        read_times = len(ops) <= 220      # longer flat chains exceed the interpreter recursion limit of the library's time evaluation
+        times = snap.raw_times(ops) if read_times else []
         again = flat.flatten()
         ops2 = again.operations
         acc.count("second_flatten_checks")
         if [id(o) for o in ops2] != ids:
             acc.finding("flatten/not-idempotent", "flattening a second time changes the listing", case, {"len1": len(ops), "len2": len(ops2)})
-        else:
+        elif read_times:
+            acc.count("second_flatten_time_checks")
             t2 = snap.raw_times(ops2)
             if any(abs(a[0] - b[0]) > TOL or abs(a[1] - b[1]) > TOL for a, b in zip(times, t2)):
                 acc.finding("flatten/not-idempotent-times", "flattening a second time changes reported times", case, None)
@@ -161,7 +163,7 @@ def run_shard(shard: Dict[str, Any]) -> Acc:
         prog = gen_case(rng, cls)
         acc.hist("class", cls)
         flags: Dict[str, Any] = {}
-        check_program(prog, acc, flags)
+        common.guarded(acc, check_program, prog, acc, flags)
         acc.case(bp.phash(prog), bool(flags.get("nontrivial")), sample=prog if i < 40 else None)
     return acc
 
